@@ -10,10 +10,13 @@ import CtyModel.Lemmas.TyJsonRT
 namespace CtyModel
 namespace JsonVal
 
-/-! ### well-formedness: the payload constructor is the one the type dictates -/
+/-! ### well-formedness: the payload constructor is the one the type dictates
+(an unknown may stand anywhere, a marker wraps a payload of the same type) -/
 mutual
 def wfP : Ty → Payload → Bool
   | _, .null => true
+  | _, .unk _ => true
+  | t, .marked _ r => wfP t r
   | .bool, .b _ => true
   | .number, .n _ => true
   | .string, .s _ => true
